@@ -96,6 +96,7 @@ func init() {
 			{"lockset", "the block queue's ring/len/lastQ and the state-sync module's stage, sync point, heights, tries and node pool are read and written only while the owning mutex is held (write lock for writes), in methods every call site of which holds it, or in the tabled traversal callback", ruleLocksetSync},
 			{"stage-machine", "the state jump that ends a state synchronisation is a well-formed stage machine: markers name the next clause and are persisted with the stage, and everything the jump writes to the store is in or before the batch that removes the marker (a restart at any point resumes or finds the jump complete)", ruleStageMachine},
 			{"sync-guards", "restored MPT nodes are stored only behind the hash comparison; statesync stores blocks only behind index/setting/Merkle/header-hash/stage checks; stage bits are set only after the root/sync-point test and a synchronous persist; queue slots are cleared only behind a content test; each restore call gets its own clone", ruleSyncGuards},
+			{"traverse-callback", "a Billet.Traverse callback that removes the node's hash from a container on the first occurrence does not panic merely because a later occurrence of the same hash (equal subtrees) is not found there", ruleTraverseCallback},
 			{"chan-typestate", "every send on Queue.checkBlocks holds queueLock and follows a `discarded` check made after the lock was last acquired; the channel is closed only by the function that sets the flag", ruleChanTypestate},
 		},
 		NotCovered: "ring-buffer position arithmetic, lastQ, in-order application, pool/path bookkeeping, lockstep with the source node",
